@@ -12,7 +12,7 @@ from ..runner import Result, Source, sha
 ID = "C14"
 LEVEL = "exploration"
 RULE = ("Hypothesis literals built from Unicode scalar values of every UTF-8 length and plane (boundaries U+7F/80, U+7FF/800, U+D7FF/E000, U+FFFF/10000, "
-        "U+10FFFF), simple escapes, octal escapes of 1-3 digits and hex escapes of 1-8 digits followed by digit-like characters, every prefix (none, u8, u, U, L), "
+        "U+10FFFF), simple escapes, octal escapes of 1-3 digits and hex escapes of 1-33 digits (zero padded) followed by digit-like characters, every prefix (none, u8, u, U, L), "
         "concatenations of 2-4 literals with prefix mixtures, as array initialisers (with shorter/longer explicit bounds), pointers and character constants, x 3 "
         "targets; ENUM: '\\ooo' and '\\xhh' for all 256 values x every prefix. Oracle: an independent encoder (UTF-8/16/32, wchar_t per target, plain char "
         "constants valued as char), arbitrated by clang --target on mismatch. Invalid inputs (stray continuation bytes, overlong forms, encoded surrogates, "
@@ -63,7 +63,8 @@ def piece_items(draw, width, in_char=False):
                 if not in_char:
                     items.append((f, "cp", ord(f)))
         else:
-            nd = draw(st.integers(1, 8))
+            # a hexadecimal escape is the longest run of hexadecimal digits (6.4.4.4p7): leading zeros may pad it to any width
+            nd = draw(st.sampled_from([1, 2, 3, 4, 5, 6, 7, 8, 8, 9, 10, 16, 17, 33]))
             v = draw(st.integers(0, min(maxv, (1 << (4 * nd)) - 1)))
             txt = "\\x" + ("%x" % v).zfill(nd)
             if draw(st.booleans()):
@@ -287,7 +288,7 @@ def esc_check(case, ctx):
     lines = []
     exp = []
     for v in range(256):
-        for form in ("\\%o" % v, "\\x%x" % v, "\\%03o" % v, "\\x%02X" % v, "\\x000%x" % v):
+        for form in ("\\%o" % v, "\\x%x" % v, "\\%03o" % v, "\\x%02X" % v, "\\x000%x" % v, "\\x%09x" % v, "\\x%020X" % v):
             val = v
             if pfx == "" and v >= 0x80 and cproc.SIGNED_CHAR[target]:
                 val = v - 256
